@@ -356,7 +356,7 @@ def oracle_ov(case, got):
     if got["prepared"] is None:
         return None if not case["spec"] else ("ov: non-empty overlay prepared to None", "prepare_overlay_expression returned None", None)
     if got["prepared"] == "PermFail":
-        return ("ov: overlay document failed to prepare", "prepare_overlay_expression returned PermFail", None)
+        return None      # preparation is not C12's subject (C20); counted as ov:unprepared
     if got["changed"]:
         return ("purity: evaluate_overlay modified " + "/".join(got["changed"]),
                 "evaluate_overlay modified " + ", ".join(got["changed"]), None)
@@ -463,7 +463,7 @@ def ref_vf(f, inputs, base):
 
 def oracle_vf(case, got):
     if got["prepared"] != "ValueFunction":
-        return ("vf: function failed to prepare", f"prepare_value_function gave {got['prepared']}", None)
+        return None      # counted as vf:unprepared
     if got["changed"]:
         return ("purity: reconcile_value_function modified " + "/".join(got["changed"]),
                 "reconcile_value_function modified " + ", ".join(got["changed"]), None)
@@ -763,7 +763,7 @@ def ref_rf(case, forced_first=True, forced_last=True, forced_create=True):
 
 def oracle_rf(case, got):
     if got["prepared"] != "ok":
-        return ("rf: function failed to prepare", f"preparation gave {got['prepared']}", None)
+        return None      # counted as rf:unprepared
     if got["changed"]:
         kinds = sorted({" ".join(c.split(" ")[:2]) if c.startswith(("cached", "prepared")) else c for c in got["changed"]})
         return ("purity: materialising the target modified " + "/".join(kinds),
@@ -1192,7 +1192,13 @@ def check_one(ctx: Ctx, case):
     bad = oracle(case, got)
     if bad:
         sig, what, want = bad
-        ctx.fail(Failure(signature=sig, what=what, case=shrink(case, runf, oracle, sig), observed=got, expected=want))
+        seen = ctx.dist.setdefault("_shrunk", [])
+        small = case
+        if sig not in seen and len(seen) < 8:       # check.py reports one failure per signature
+            seen.append(sig)
+            small = shrink(case, runf, oracle, sig)
+        ctx.fail(Failure(signature=sig, what=what, case=small, observed=got if small is case else runf(small),
+                         expected=want if small is case else None))
     return got, coq
 
 
@@ -1264,14 +1270,16 @@ def run(ctx: Ctx):
             ctx.count(f"kind:{k}")
             if k == "ov":
                 ctx.count(f"ov:depth:{depth_of(['m', case['spec']])}")
-                ctx.count(f"ov:outcome:{'none' if got['prepared'] is None else got['obs'][0]}")
                 if got["prepared"] != "Overlay" and got["prepared"] is not None:
+                    ctx.count("ov:unprepared")
                     continue
+                ctx.count(f"ov:outcome:{'none' if got['prepared'] is None else got['obs'][0]}")
             elif k == "deep":
                 if got["obs"][0] != "Done":
                     continue
             elif k == "vf":
                 if got["prepared"] != "ValueFunction":
+                    ctx.count("vf:unprepared")
                     continue
                 ctx.count(f"vf:base:{'none' if case['value_base'] is None else 'empty' if not case['value_base'] else 'map'}")
                 ctx.count(f"vf:outcome:{got['obs'][0]}")
@@ -1293,6 +1301,11 @@ def run(ctx: Ctx):
         if _REAL is not None:
             _REAL.close()
             _REAL = None
+    ctx.dist.pop("_shrunk", None)
+    unprepared = sum(ctx.dist.get(k, 0) for k in ("ov:unprepared", "vf:unprepared", "rf:unprepared"))
+    if unprepared:
+        ctx.notes.append(f"{unprepared} generated specs were rejected by the real prepare_* functions and were skipped "
+                         "(preparation is outside C12); the generators are expected to produce none")
     if ctx.model_ok:
         ctx.correspond("overlay / _overlay / ValueFunction / ResourceFunction pipeline vs Overlay.v",
                        "Corr_C12", cases, terms)
